@@ -6,3 +6,23 @@ NOTES = ("Every check is `python -m vp.runner <ID>`: fixed regression cases, the
          "sub-domain is finite; evidence is rewritten on every run. Exit 2 = harness error. "
          "known_findings.json lists fixed and pinned findings.")
 
+
+# what was added to a check after its fragment was written (seeded rounds, see DESIGN.md 6.4)
+ADDENDA = {
+ "C01": "Later additions: falsy and None seeds, group-graph driver on the registry's own dependency sets, pooled run_all driver, the same graph object evaluated 1-3 times per case.",
+ "C02": "Later additions: falsy produced/seeded values (also in the exhaustive shapes), optional evaluation before the enabled/disabled configuration is applied, repeated evaluation of one graph object.",
+ "C03": "Later additions: observers as functools.partial / callable instances / bound methods, falsy values, a warm-up evaluation of the same graph object.",
+ "C04": "Later additions: graph dicts that are not closed under dependencies, falsy values, records for components outside the graph are reported.",
+ "C05": "Later additions: evaluations between spec-set definitions, implementations that succeed with a falsy value ('', 0, []).",
+ "C06": "Later additions: paths through a directory link followed by '..', in-root symlinks among the files that are persisted.",
+ "C08": "Later additions: regex exclusion patterns with capturing groups and numbered back-references.",
+ "C09": "Later additions: pools of 11-16 originals and sweeps over them (more than ten substitutes issued).",
+ "C10": "Later additions: specs whose every active obfuscator is exempt (blank collapse), the same allow-list object used for two cleanings, netstat-shaped width-mode cases under several hash seeds.",
+ "C11": "Later additions: persistence on a thread pool with a slow first element; sub-check 'errors' (a spec with evaluation-time errors whose fallback command fails lazily at persist time keeps all its errors).",
+ "C12": "Later additions: further evaluators observing the same broker; the response held by the broker after the run equals what the rule returned.",
+ "C13": "Later addition: sub-check 'atheris' (coverage-guided libFuzzer campaign with the differential oracle inside the target).",
+ "C14": "Later addition: after a parser created with extra_bad_lines a second parser without them must accept output containing those phrases.",
+ "C18": "Later additions: two-segment exclusion requests naming children of other top-level mappings, revocation entries sharing a name or without name, sub-check 'dupkey' (text-level insertion under a repeated key is refused or changes the digest).",
+ "C19": "Later addition: WithIndent and HangingString are part of the term language and of the reference interpreter (indentation stack); they are no longer 'not covered'.",
+ "C20": "Later additions: falsy attribute literals (0, ''), expressions derived from the expression under test before it is evaluated.",
+}
